@@ -127,7 +127,7 @@ class Model:
                               "set_b", "set_c", "newtonReverse", "fixedGradientScaled", "c_ppm", "b_ppm", "c_iadd"):
                         m.append("bc:%d:%s:%s" % (s, side, e))
                 if self.paxis is not None:
-                    m += ["per:%d:on" % s, "per:%d:off" % s]
+                    m += ["per:%d:on" % s, "per:%d:on_hi" % s, "per:%d:off" % s]
                 m += ["val:%d:assign" % s, "val:%d:index" % s, "val:%d:iadd" % s,
                       "apply:%d" % s, "solve:%d" % s, "expl:%d:replace" % s, "expl:%d:other" % s,
                       "new:%d:copy" % s, "new:%d:add1" % s, "new:%d:mul2" % s, "new:%d:share" % s,
@@ -262,7 +262,13 @@ class Model:
                 bf.c += 0.5
         elif p[0] == "per":
             lo, hi = U.SIDES[self.paxis]
-            getattr(v.BCs, lo).periodic = (p[2] == "on")
+            if p[2] == "on":                # either face declares the axis periodic
+                getattr(v.BCs, lo).periodic = True
+            elif p[2] == "on_hi":
+                getattr(v.BCs, hi).periodic = True
+            else:
+                getattr(v.BCs, lo).periodic = False
+                getattr(v.BCs, hi).periodic = False
         elif p[0] == "val":
             if p[2] == "assign":
                 v.value = self.pat[1]
